@@ -105,8 +105,15 @@ fn cpu_seconds() -> f64 {
     ts.tv_sec as f64 + ts.tv_nsec as f64 * 1e-9
 }
 
+static HANG_MILLIS: AtomicU64 = AtomicU64::new(8000);
+pub fn set_hang_secs(s: f64) {
+    HANG_MILLIS.store((s * 1000.0) as u64, Ordering::Relaxed);
+}
 pub fn hang_secs() -> f64 {
-    std::env::var("VERIF_HANG_SECS").ok().and_then(|s| s.parse().ok()).unwrap_or(8.0)
+    std::env::var("VERIF_HANG_SECS")
+        .ok()
+        .and_then(|s| s.parse().ok())
+        .unwrap_or(HANG_MILLIS.load(Ordering::Relaxed) as f64 / 1000.0)
 }
 
 /// Watchdog: if the progress marker does not move across `hang_secs()` seconds of
@@ -276,6 +283,10 @@ pub trait Engine: Sync {
     fn hang_case(&self, _ctx: &Ctx, _index: usize, _call: u64) -> Option<(BTreeMap<String, String>, Value)> {
         None
     }
+    /// CPU seconds without progress after which a call counts as hung
+    fn hang_secs(&self) -> f64 {
+        8.0
+    }
     /// whether a violation class counts for this engine's property
     fn judges(&self, _class: &str) -> bool {
         true
@@ -296,6 +307,7 @@ pub trait Engine: Sync {
 
 pub fn worker_main(engine: &dyn Engine, ctx: &Ctx) -> i32 {
     install_panic_hook();
+    set_hang_secs(engine.hang_secs());
     start_watchdog();
     let stdin = std::io::stdin();
     let stdout = std::io::stdout();
@@ -538,6 +550,7 @@ pub fn write_replay(ctx: &Ctx, engine: &dyn Engine, v: &Violation) -> String {
 /// Full run of one property: supervise, merge, classify, write evidence. Returns exit code.
 pub fn run_property(engine: &dyn Engine, ctx: &Ctx) -> i32 {
     let t0 = Instant::now();
+    set_hang_secs(engine.hang_secs());
     let n = engine.num_cases(ctx);
     println!(
         "verif-sim: property={} tier={:?} VERIF_SEED={} profile={} cases={} workers={}",
@@ -609,6 +622,9 @@ pub fn finish_run(engine: &dyn Engine, ctx: &Ctx, out: RunOutput, t0: Instant, w
         }
         digest.add(r.index as u64);
         digest.add(r.digest);
+        for k in &r.keys {
+            digest.add(*k);
+        }
         let mut vs = r.violations.clone();
         for (h, call) in &r.hangs {
             // the worker could not report which run it was in: the engine reconstructs
@@ -705,7 +721,7 @@ pub fn finish_run(engine: &dyn Engine, ctx: &Ctx, out: RunOutput, t0: Instant, w
         });
         let dir = verif_dir().join("evidence");
         let _ = std::fs::create_dir_all(&dir);
-        let path = dir.join(format!("{}.json", ctx.property));
+        let path = dir.join(format!("{}{}.json", ctx.property, std::env::var("VERIF_EVIDENCE_SUFFIX").unwrap_or_default()));
         if let Err(e) = std::fs::write(&path, serde_json::to_string_pretty(&ev).unwrap()) {
             eprintln!("HARNESS-ERROR: cannot write evidence: {e}");
             return 2;
